@@ -28,12 +28,12 @@ NA = {
 CHECKS = {
     "C02": dict(
         cat="exploration", design="4.2", technique="deterministic simulation: seeded replica-agreement (batch replica vs row-by-row replica) over random segmentations, with exception-parity oracle",
-        text="Seeded search over generated and shipped engines x row streams x segmentations x setter kinds (per-variable arrays, matrix, 1-d, 0-d, in-place refills, integer / strided / read-only batches, batches beyond 8192 rows); two real engines fed the same log under different segmentation must agree row for row (values, fuzzy values, Engine.output_values) and on raising. Sampling, not proof: a clean run is evidence that no segmentation-, carry- or mode-dependent divergence exists among the cases explored.",
-        note="Trusted: NumPy, the spec builder (public constructors only). Function terms reading output values are excluded; relative differences <= 1e-12 tolerated and counted (0 observed)."),
+        text="Seeded search over generated and shipped engines x row streams x segmentations x setter kinds (per-variable arrays, matrix, 1-d, 0-d, in-place refills, integer / float32 / mixed-type / strided / read-only batches, batches beyond 8192 rows, engines with up to 12 inputs, user-defined terms / norms / hedges / defuzzifiers); two real engines fed the same log under different segmentation must agree row for row (values, fuzzy values, Engine.output_values) and on raising. Sampling, not proof: a clean run is evidence that no segmentation-, carry- or mode-dependent divergence exists among the cases explored.",
+        note="Trusted: NumPy, the spec builder (public constructors only). Function terms reading output values are excluded. Values and fuzzy values are compared bit for bit (canonical floats: NaN == NaN, -0.0 == 0.0). Quantifier as given: engines using the General activation method (and user subclasses of it), batches of 1..N rows."),
     "C12": dict(
         cat="fault_enumeration", design="4.1", technique="deterministic simulation: state-machine histories vs executable reference model, all cuts of sampled row sequences, defuzzifier failure of every kind enumerated at every position",
         text="A 15-line reference model of the cascade is compared after every op with a real OutputVariable (stub defuzzifier) and with whole engines (real defuzzifiers, cascade-free twin for raw values). For every sampled history all single-failure positions x 8 exception kinds are enumerated, and for every sampled row sequence all 2^(L-1) cuts; histories themselves are sampled by seed.",
-        note="Trusted: the reference model (written from the property statement), NumPy. +-inf are treated as values, not NaN. Natural (non-injected) failures resynchronise and are counted, not judged."),
+        note="Trusted: the reference model (written from the property statement), NumPy. +-inf are treated as values, not NaN. The stub defuzzifier also answers in float32 (judged within float32 resolution, previous value exactly), with integers / bools, with empty arrays, and the run may continue on a deepcopy / pickle copy of the variable."),
     "C13": dict(
         cat="exploration", design="4.3", technique="deterministic simulation: seeded operation interleaving over an engine and its copies, lockstep fresh-built shadows, frame conditions, aborted operations and line-level crash + restart",
         text="The scheduler chooses the next operation and the engine instance it addresses; every live engine is compared after every op with a shadow built fresh from the spec (never by copy/restart), with a history-free twin given only the current inputs, and every other live engine must be unchanged. Faults: failing components, missing operators, FP traps, sys.settrace crashes inside process/restart/copy followed by restart. Sampling, not proof.",
@@ -81,7 +81,7 @@ def main(claimed):
         "engines": [{"name": "simkit", "path": "/verif/simkit", "serves_properties": claimed,
                      "kind_free_text": "deterministic simulator: seeded trace generator, runners with reference models / fresh twins, fault injectors (faulty component subclasses, None operators, FP traps, sys.settrace line crashes, torn/corrupted documents), pristine-process shrinker, exact replay"}],
         "checks": checks,
-        "notes": "Technique family: deterministic simulation with fault injection (DESIGN.md; section 9 is the as-built record). check.py exit codes: 0 held, 1 violation (+VIOLATION line), 2 harness error/timeout, 3 replay mismatch. Honours VERIF_SEED, VERIF_TIER, VERIF_REPO. No source hooks in /repo; six unguarded 'fix:' commits repair the genuine defects the checks found (known_findings.json lists them as fixed). Self-tests: selftest/determinism.py, selftest/sensitivity.py (60+ mutants incl. silent controls), selftest/known_findings_test.py; tools/reseed.py re-runs the 100+ sub-agent changes kept under seeded/.",
+        "notes": "Technique family: deterministic simulation with fault injection (DESIGN.md; section 9 is the as-built record). check.py exit codes: 0 held, 1 violation (+VIOLATION line), 2 harness error/timeout, 3 replay mismatch. Honours VERIF_SEED, VERIF_TIER, VERIF_REPO. No source hooks in /repo; ten unguarded 'fix:' commits (D1-D10) repair genuine defects the checks found (known_findings.json lists them as fixed); one genuine defect is recorded as an open known finding instead (F1, C16: evaluating a rule of about a thousand chained propositions raises RecursionError) and is reported as a KNOWN-FINDING line with exit 0. Self-tests: selftest/determinism.py, selftest/sensitivity.py (59 mutants incl. 4 silent controls and the reverts of D1-D10), selftest/known_findings_test.py; tools/reseed.py re-runs the 175 sub-agent changes (13 rounds) kept under seeded/.",
         "not_applicable": na,
     }
     with open(os.path.join(HERE, "MANIFEST.json"), "w") as f:
